@@ -146,6 +146,9 @@ func (g *gen) inline(kind string, depth int) *Val {
 		if g.r.Intn(3) == 0 {
 			mts = append(mts, "text/plain")
 		}
+		if g.r.Intn(4) == 0 { // schema-less media type with a referenced example
+			g.kid(v, []string{"content", "text/csv", "examples", "e"}, "examples", depth, "requestBody.content.examples", false)
+		}
 		for _, mt := range mts {
 			g.kid(v, []string{"content", mt, "schema"}, "schemas", depth, "requestBody.content.schema", false)
 			if g.r.Intn(3) == 0 {
@@ -162,6 +165,10 @@ func (g *gen) inline(kind string, depth int) *Val {
 			if g.r.Intn(3) == 0 {
 				g.kid(v, []string{"content", "application/json", "examples", "e"}, "examples", depth, "response.content.examples", false)
 			}
+		}
+		if g.r.Intn(4) == 0 {
+			// a media type documented by a referenced example only (no schema): text/csv, text/plain, XML bodies
+			g.kid(v, []string{"content", "text/csv", "examples", "e"}, "examples", depth, "response.content.examples", false)
 		}
 		if g.r.Intn(3) == 0 {
 			g.kid(v, []string{"links", "l"}, "links", depth, "response.links", false)
